@@ -6,6 +6,7 @@ PROPS = ['C01','C02','C03','C04','C05','C06','C07','C08','C09','C10','C11','C12'
 
 def main():
     rows = []
+    stats = {'total': 0, 'any': 0, 'own': 0}
     for d in sorted(glob.glob(os.path.join(HERE, 'seeded', 'C*'))):
         sid = os.path.basename(d)
         meta = json.load(open(os.path.join(d, 'meta.json')))
@@ -27,6 +28,9 @@ def main():
         inv = re.match(r'(\w+) in ([\w ]+?) \(', first.get(target, '') or '')
         how = f"{inv.group(1)} ({inv.group(2)})" if inv else (first.get(target, '')[:40])
         rows.append((sid, meta.get('needs_to_manifest', '')[:110], ', '.join(caught) or '—', how))
+        stats['total'] += 1
+        stats['any'] += 1 if caught else 0
+        stats['own'] += 1 if target in caught else 0
     out = ['| change | needs | caught by the quick check of | how the target property\'s check reports it |', '|---|---|---|---|']
     for r in rows:
         out.append(f'| {r[0]} | {r[1]} | {r[2]} | {r[3]} |')
@@ -36,6 +40,7 @@ def main():
     a = s.index('<!-- MATRIX -->')
     b = s.index('### 10.5')
     intro = open(os.path.join(HERE, 'matrix_intro.md')).read() if os.path.exists(os.path.join(HERE, 'matrix_intro.md')) else ''
+    intro = intro.replace('{N_TOTAL}', str(stats['total'])).replace('{N_ANY}', str(stats['any'])).replace('{N_OWN}', str(stats['own']))
     s = s[:a] + '<!-- MATRIX -->\n' + intro + '\n' + table + '\n\n' + s[b:]
     open(p, 'w').write(s)
     print(table)
